@@ -5,7 +5,7 @@
 jobs="$1"; tier="$2"; shift 2
 mkdir -p /tmp/wt /tmp/trial_out
 for j in $(seq 1 "$jobs"); do
-  [ -d /tmp/wt/t$j ] || git -C /repo worktree add -q --detach /tmp/wt/t$j HEAD
+  [ -d /tmp/wt/t$$_$j ] || git -C /repo worktree add -q --detach /tmp/wt/t$$_$j HEAD
 done
 printf '%s\n' "$@" > /tmp/trial_out/queue.$$
 worker() {
@@ -14,10 +14,10 @@ worker() {
     item=$(flock /tmp/trial_out/queue.$$.lock sh -c "head -1 /tmp/trial_out/queue.$$; sed -i 1d /tmp/trial_out/queue.$$")
     [ -z "$item" ] && break
     id="${item%%:*}"; pid="${item##*:}"
-    /verif/tools/trial.sh "$id" "$pid" /tmp/wt/t$j "$tier"
+    /verif/tools/trial.sh "$id" "$pid" /tmp/wt/t$$_$j "$tier"
   done
 }
 for j in $(seq 1 "$jobs"); do worker $j & done
 wait
-for j in $(seq 1 "$jobs"); do git -C /repo worktree remove --force /tmp/wt/t$j; done
+for j in $(seq 1 "$jobs"); do git -C /repo worktree remove --force /tmp/wt/t$$_$j; done
 rm -f /tmp/trial_out/queue.$$ /tmp/trial_out/queue.$$.lock
